@@ -34,7 +34,7 @@ from props.e2e_common import e2e_engine
 ENGINES.append(e2e_engine("C02"))   # the same histories against a real pipeline over TCP/HTTP
 from props import bgpend_common
 ENGINES.append(bgpend_common.bgpend_engine())   # the END of a BGP session on the real Processor::process loop, every exit
-_pipe_signature = known_signature_for({"K2"})
+_pipe_signature = known_signature_for({"K2", "KU"})   # KU: e2e, a BGP session ended by a reload whose Withdraw nobody heard
 
 
 def known_signature(k, engine, case, mo, spec, im):
